@@ -40,7 +40,9 @@ fn vp_native_framing_decision_matrix_body() {
                 for l in [["3", "3", "3", "3"], ["3", "3", "5", "5"], ["3", "5", "3", "5"], ["5", "3", "3", "3"], ["3", "3", "3", "5"], ["3", "3", "x", "3"]] { cl_lists.push(l.to_vec()); cl_lists.push(l[..3].to_vec()); }
                 for cls in &cl_lists {
                     if cls.iter().any(|v| v.is_empty()) && cls.len() > 1 { continue; }
-                    let mut wire = format!("HTTP/1.1 {} X\r\n", status).into_bytes();
+                    // a Connection field that names the framing fields as hop-by-hop (or anything else) changes nothing about the framing
+                    let conn = ["", "Connection: close\r\n", "Connection: content-length\r\n", "Connection: Transfer-Encoding, content-length\r\n", "Connection: keep-alive\r\nConnection: Content-Length\r\n"][(cases % 5) as usize];
+                    let mut wire = format!("HTTP/1.1 {} X\r\n{}", status, conn).into_bytes();
                     for v in cls { wire.extend_from_slice(format!("Content-Length: {}\r\n", v).as_bytes()); }
                     for (i, t) in te.iter().enumerate() {
                         wire.extend_from_slice(format!("Transfer-Encoding: {}\r\n", t).as_bytes());
@@ -54,7 +56,7 @@ fn vp_native_framing_decision_matrix_body() {
                     let res = parse_response(BaseStream::mock(wire.clone()), &req, req.url()).and_then(|r| r.bytes());
                     cases += 1; crate::verif_native_watchdog::progress();
                     let no_body = method == Method::HEAD || (100..200).contains(&status) || status == 204 || status == 304;
-                    let ctx = format!("method {} status {} CL {:?} TE {:?}", method, status, cls, te);
+                    let ctx = format!("method {} status {} CL {:?} TE {:?} {:?}", method, status, cls, te, conn.trim_end());
                     // a control byte in a field value makes the head itself invalid: refusing the whole response is fine for any status
                     let ctl = cls.iter().any(|v| v.bytes().any(|b| (b < 0x20 && b != b'\t') || b == 0x7f));
                     if ctl && res.is_err() { continue; }
